@@ -152,6 +152,10 @@ class Runner:
         try:
             out, err, rc = self.api.run(["--cache-dir", cache, "--no-error-summary", "--hide-error-context",
                                          "--no-color-output", "--show-error-codes"] + flags + args)
+        except SystemExit as e:
+            out, err, rc = "", "CRASH SystemExit %s" % (e.code,), 3
+        except Exception as e:              # an internal error escaped mypy.api.run
+            out, err, rc = "", "CRASH %s: %s" % (type(e).__name__, str(e)[:200]), 3
         finally:
             os.chdir(old)
         return out, err, rc
